@@ -32,6 +32,35 @@ CHECKS = {
             'explicit TLA+ spec model-checked with TLC (invariant LookbehindRule); replay'),
 }
 
+CHECKS.update({
+    'C03': ('6 C03', 'TLC enumerates the documented argument space of every builder, of the class constructors/algebra and of the meta '
+            'constructors (valid values and each documented way of being invalid) with the intended outcome; replay under several '
+            'hash seeds judges only: library exception or a pattern that compiles and whose export is printable and equivalent',
+            'explicit TLA+ specs (PregexSpine, PregexClass, PregexMeta) model-checked with TLC; spec-generated cases replayed'),
+    'C06': ('6 C06', 'TLC enumerates constructor calls with the documented sets as CharSet values; replay decides membership of every '
+            'code point 0..0x10FFFF per distinct emitted class text under several hash seeds',
+            'explicit TLA+ spec (CharSet, PregexClass) model-checked with TLC; full-range membership replay'),
+    'C07': ('6 C07', 'TLC checks the interval algebra pointwise (action property Pointwise, DoubleNeg) and enumerates class terms over '
+            'windows of adjacent code points; replay decides membership over the full code-point range under several hash seeds',
+            'explicit TLA+ spec model-checked with TLC (Pointwise, DoubleNeg, IvNormal); full-range membership replay'),
+    'C11': ('6 C11', 'TLC enumerates cache/observer histories (PregexCache, CacheProtocol), checks the slice laws on abstract match lists '
+            '(MC_Api) and validates every recorded observer event against PregexApi (TraceApi)',
+            'explicit TLA+ specs model-checked with TLC; generated histories replayed, recorded traces validated by TLC'),
+    'C12': ('6 C12', 'as C11 for the capture-extraction methods: SliceIdentity, OnePerMatch, IncludeEmptyFilter on abstract match lists, '
+            'recorded capture events validated by TLC against PregexApi',
+            'explicit TLA+ specs model-checked with TLC; generated histories replayed, recorded traces validated by TLC'),
+    'C13': ('6 C13', 'as C11 for split_by_match / split_by_capture / replace: SplitReconstruct, ReplaceFirstK, ReplaceAllEqualsJoin on '
+            'abstract match lists, recorded events validated by TLC',
+            'explicit TLA+ specs model-checked with TLC; generated histories replayed, recorded traces validated by TLC'),
+    'C14': ('6 C14', 'as C11 with real UTF-8 files whose path string itself contains matches, and context windows incl. invalid sizes; '
+            'recorded events validated by TLC against PregexApi on the file content',
+            'explicit TLA+ specs model-checked with TLC; generated histories replayed, recorded traces validated by TLC'),
+    'C20': ('6 C20', 'TLC enumerates heap histories with sharing, aliasing and interleaved compile/matching (HeapImmutable, '
+            'AliasSameValue); replay re-observes every live object after every call under several hash seeds and compares every '
+            'object with the reference text of its value',
+            'explicit TLA+ spec (PregexHeap) model-checked with TLC; spec-generated histories replayed into the implementation'),
+})
+
 NOT_YET = {
     'C03': 'check under construction in this session (builder part exists, class algebra and meta parts pending)',
     'C06': 'check under construction', 'C07': 'check under construction', 'C11': 'check under construction',
